@@ -102,9 +102,12 @@ class SQLStorage(Storage):
         elif isinstance(checker, StringExactChecker):
             return cur.filter(
                 PolicyModel.type == TYPE_STRING_BASED,
-                PolicyModel.actions.any(PolicyActionModel.action_string == inquiry.action),
-                PolicyModel.resources.any(PolicyResourceModel.resource_string == inquiry.resource),
-                PolicyModel.subjects.any(PolicySubjectModel.subject_string == inquiry.subject))
+                PolicyModel.actions.any(
+                    PolicyActionModel.action_string.in_(self._exact_variants(inquiry.action))),
+                PolicyModel.resources.any(
+                    PolicyResourceModel.resource_string.in_(self._exact_variants(inquiry.resource))),
+                PolicyModel.subjects.any(
+                    PolicySubjectModel.subject_string.in_(self._exact_variants(inquiry.subject))))
         elif isinstance(checker, RegexChecker):
             if not self._supports_regex_operator():
                 return cur.filter(PolicyModel.type == TYPE_STRING_BASED)
@@ -142,6 +145,16 @@ class SQLStorage(Storage):
         else:
             log.error('Provided Checker type is not supported.')
             raise UnknownCheckerType(checker)
+
+    @staticmethod
+    def _exact_variants(value):
+        """
+        Stored strings that StringExactChecker accepts for a value: the value itself or the value enclosed in
+        the policy tags (the checker compares such an element by its inner text).
+        """
+        if isinstance(value, str):
+            return [value, '<%s>' % value]
+        return [value]
 
     def _supports_regex_operator(self):
         """
